@@ -81,9 +81,14 @@ def _big_table(rng, tier):
         if tier == 'quick':
             n, m = rng.choice([(rng.randint(18, 24), rng.randint(12, 15)), (rng.randint(24, 30), rng.randint(15, 17))])
         else:
-            n, m = rng.randint(25, 40), rng.randint(15, 22)
+            n, m = rng.randint(24, 34), rng.randint(14, 18)
         dens = rng.choice([0.5, 0.55, 0.6])
-        return n, m, [sum((rng.random() < dens) << j for j in range(m)) for _ in range(n)]
+        rows = [sum((rng.random() < dens) << j for j in range(m)) for _ in range(n)]
+        cap = 2000 if tier == 'quick' else 6000      # "a few thousand concepts", and a run stays within its time limit
+        while len(FCA(n, m, rows).concepts()) > cap:
+            rows = [r & ~(1 << rng.randrange(m)) for r in rows[:-1]]
+            n -= 1
+        return n, m, rows
     n = rng.choice([40, 80, 120] if tier == 'quick' else [80, 120, 200, 300])     # chain: deep, thin lattice (Lindig is cubic here)
     return n, n, [(1 << (i + 1)) - 1 for i in range(n)]
 
